@@ -2,6 +2,7 @@
 import sampling_rules as S
 import cowrite
 import generic_lints
+import hazard_lints
 import triggers
 import c19_rules
 import predicates
@@ -19,6 +20,7 @@ def run(facts, tier):
         ("rest state", derived.rest_state, 4, "the readers restore the transient M region as empty and the gap slot as raw memory"),
         ("reader dead-reads", lambda fa: [o for o in dead_reads.obligations(fa) if "var_opt" in o["key"]], 10, "every field the VarOpt readers take from the image reaches the restored sketch on every accepting path"),
         ("tautologies", lambda fa: generic_lints.tautologies(fa, ('sampling/',)), 2, "no comparison / assignment / min-max with two identical operands"),
+        ("hazards", lambda fa: hazard_lints.hazards(fa, ('sampling/',)), 2, "no 64-bit value silently narrowed at a call of a library function, no numeric_limits<floating>::min() as a lowest value, no random engine constructed inside a loop, no read of a moved-from parameter, no unguarded unsigned `x - c` loop bound (reviewed instances in spec/hazards.json)"),
         ("duplicate operands", lambda fa: generic_lints.duplicate_conjuncts(fa, ('sampling/',)), 2, "no logical chain tests the same operand twice"),
         ("vacuous loops", lambda fa: generic_lints.vacuous_loops(fa, ('sampling/',)), 2, "no counted loop whose bound was just reset to its start value"),
         ("structural triggers", lambda fa: triggers.obligations(fa, ["var_opt_sketch"]), 18, "the comparisons that decide when to compress / grow / downsample keep their reviewed boundary (operator and constants)"),
